@@ -399,6 +399,49 @@ def run_c09(run_, rng, tier, exe):
         return None
     _, b3_, m3_ = l2_family(run_, exe, whole, judge_whole, cls=lambda s, r: "whole run %s exit %d" % ("dry" if s["opts"].get("dry") else "real", r["exit"]), label="C09a3")
     bad += b3_; mism += m3_
+    # (a4) a fatal error that is not in the patch text: the flush of the deferred writes of a git stream fails on one file (its
+    # destination is a directory) while backups are due for others: every other file is at its path, original or patched
+    flush = []
+    for _ in range(40 if q else 500):
+        # the victim is created in a directory that takes no new entry (mode 0555): its deferred write fails at the flush
+        victim = scen.section(rng, "ro/v1", kind="add", fmt="git", nonl=False)
+        others = [scen.section(rng, p_, kind="change", fmt="git", nonl=False) for p_ in rng.sample(["h1", "hd/h2", "h3"], rng.choice([1, 2]))]
+        order = rng.choice([[victim] + others, others + [victim], others[:1] + [victim] + others[1:]])
+        s0 = scen.base_scenario(rng, order, opts=dict(rng.choice([{"b": 1}, {"b": 1}, {}, {"bim": 1}])), drift=rng.choice([0, 0.4]))
+        s0["tree"]["ro"] = ("D", 0o555, b""); s0["tree"]["ro/keep"] = ("R", 0o644, b"k\n")
+        s0["victim"] = victim["path"]; s0["others"] = [x["path"] for x in others]
+        flush.append(s0)
+
+    def judge_flush(s, r):
+        t = tree_no_meta(r["tree"])
+        for x in s["secs"]:
+            if x["path"] not in s["others"]:
+                continue
+            cur = t.get(x["path"]); orig = s["tree"][x["path"]][2]
+            if cur is None:
+                return "after the failed flush (exit %d) %s is missing from its path%s" % (r["exit"], x["path"], " (its content is only in %s.orig)" % x["path"] if t.get(x["path"] + ".orig") else "")
+            if r["exit"] == 2 and cur[2] != orig and x["path"] + ".orig" not in t and s["opts"].get("b"):
+                return "after the failed flush %s was rewritten without the backup -b asks for" % x["path"]
+        return None
+    _, b4_, m4_ = l2_family(run_, exe, flush, judge_flush, cls=lambda s, r: "flush failure exit %d" % r["exit"], label="C09a4")
+    bad += b4_; mism += m4_
+    # (a5) a read of the target that fails part way (EIO on every read call in turn, target larger than a stdio buffer): the
+    # target is never rewritten from a truncated reading
+    bigs = [big_scenario(rng)]
+    bigs[0]["opts"].pop("b", None)
+    base_b = run_many(exe, bigs, strace="read,openat", timeout=30)
+    rjobs = [(0, k) for name, k, line in relevant_calls(base_b[0].get("trace", []), ["read"])]
+    import concurrent.futures
+    with concurrent.futures.ThreadPoolExecutor(max_workers=12) as ex:
+        rres = list(ex.map(lambda jb: l2.run_impl(exe, bigs[jb[0]], strace="read,openat", inject="read:error=EIO:when=%d" % jb[1], timeout=30), rjobs))
+    origb = bigs[0]["tree"]["big"][2]; wantb = emit.file_bytes(bigs[0]["secs"][0]["b"])
+    for (i_, k), r in zip(rjobs, rres):
+        run_.count("read fault %d" % k, True, "read fault -> exit %d" % r["exit"])
+        cur = tree_no_meta(r["tree"]).get("big")
+        # (a run that ends with status 2 has said that it failed; the copy of the finished result over the target is not atomic)
+        if r["exit"] != 2 and (cur is None or cur[2] not in (origb, wantb)):
+            bad.append((0, "a read failing with EIO (read #%d): the run reports no fatal error and the target is neither in its original nor in its patched state (%s bytes, exit %d)" %
+                        (k, "no" if cur is None else len(cur[2]), r["exit"]), dict(scenario=describe(bigs[0]), inject="read:error=EIO:when=%d" % k, exit=r["exit"])))
     # (b) SIGKILL before every system call that touches the scenario
     ks = fault_scenarios(rng, 6 if q else 50)
     for _ in range(4 if q else 30):
